@@ -23,25 +23,43 @@ def extra(run, cases, oracle, tier):
     for ci, c in enumerate(cases, start=1):
         if oracle.get(ci) is None or ci > (3 if tier == "quick" else len(cases)):
             continue
-        rel, idx, F = GR.build_instance(c, oracle[ci], 4, opts={"vacuum": True, "_noT": True} if c.get("vacuum") else None)
+        copts = {"vacuum": True, "_noT": True} if c.get("vacuum") else None
+        seen = {}
+
+        def dgamma(refine):
+            rel, idx, F = GR.build_instance(c, oracle[ci], 4, opts=copts, refine=refine)
+            at = (...,) + idx
+            gam = rel["gammadown3"]
+            Dg = np.abs(rel.s_covd(gam, "dd")[at]).max()
+            Dgu = np.abs(rel.s_covd(rel["gammaup3"], "uu")[at]).max()
+            seen[refine] = (Dg, Dgu, max(1.0, np.abs(gam[at]).max()))
+            return max(Dg, Dgu) / seen[refine][2]
+
+        ok, errs = GR.shrinks_under_refinement(dgamma, 4, 2e-5)
+        run.count((c["cls"], c["seed"], "Dgamma"))
+        if not ok:
+            run.violation({"clause": "MetricCovariantlyConstant"},
+                          f"D_c gamma_ab = {seen[1][0]:.3g}, D_c gamma^ab = {seen[1][1]:.3g} on the {c['cls']} spacetime (seed {c['seed']}); "
+                          f"at half the spacing {seen[2][0]:.3g}, {seen[2][1]:.3g}: not discretisation error of the 4th-order scheme",
+                          {"class": c["cls"], "seed": c["seed"]})
+        rel, idx, F = GR.build_instance(c, oracle[ci], 4, opts=copts)
         at = (...,) + idx
         gam = rel["gammadown3"]
-        gup = rel["gammaup3"]
         tf = GR._test_fields(F)
-        Dg = rel.s_covd(gam, "dd")[at]
-        Dgu = rel.s_covd(gup, "uu")[at]
-        run.count((c["cls"], c["seed"], "Dgamma"))
-        if max(np.abs(Dg).max(), np.abs(Dgu).max()) > 2e-5 * max(1.0, np.abs(gam[at]).max()):
-            run.violation({"clause": "MetricCovariantlyConstant"},
-                          f"D_c gamma_ab = {np.abs(Dg).max():.3g}, D_c gamma^ab = {np.abs(Dgu).max():.3g} on the {c['cls']} spacetime (seed {c['seed']})",
-                          {"class": c["cls"], "seed": c["seed"]})
-        vlow = np.einsum("ab...,b...->a...", gam, tf["vec"])
-        lhs = rel.s_covd(vlow, "d")[at]
-        rhs = np.einsum("ab,cb->ca", gam[at], rel.s_covd(tf["vec"], "u")[at])
-        if np.abs(lhs - rhs).max() > 2e-5 * max(1.0, np.abs(rhs).max()):
+        def lowering(refine):
+            rel2, idx2, F2 = GR.build_instance(c, oracle[ci], 4, opts=copts, refine=refine)
+            at2 = (...,) + idx2
+            g2, v2 = rel2["gammadown3"], GR._test_fields(F2)["vec"]
+            lhs = rel2.s_covd(np.einsum("ab...,b...->a...", g2, v2), "d")[at2]
+            rhs = np.einsum("ab,cb->ca", g2[at2], rel2.s_covd(v2, "u")[at2])
+            seen["low", refine] = np.abs(lhs - rhs).max()
+            return seen["low", refine] / max(1.0, np.abs(rhs).max())
+
+        ok, errs = GR.shrinks_under_refinement(lowering, 4, 2e-5)
+        if not ok:
             run.violation({"clause": "LoweringCommutesWithD"},
-                          f"D_c (gamma_ab V^b) differs from gamma_ab D_c V^b by {np.abs(lhs - rhs).max():.3g} on the {c['cls']} spacetime",
-                          {"class": c["cls"], "seed": c["seed"]})
+                          f"D_c (gamma_ab V^b) differs from gamma_ab D_c V^b by {seen['low', 1]:.3g} on the {c['cls']} spacetime "
+                          f"({seen['low', 2]:.3g} at half the spacing)", {"class": c["cls"], "seed": c["seed"]})
         for ind, exc in BAD_INDEXING:
             try:
                 rel.Lie_beta(tf["ten"], ind)
